@@ -67,7 +67,18 @@ pub fn ctx<R>(f: impl FnOnce(&mut Ctx) -> R) -> R {
     CTX.with(|c| f(c.borrow_mut().as_mut().expect("no check context")))
 }
 
+thread_local! { static TIMEOUT_OVERRIDE: std::cell::Cell<Option<u64>> = std::cell::Cell::new(None); }
+/// run `f` with a different per-query solver timeout
+pub fn with_timeout<R>(ms: u64, f: impl FnOnce() -> R) -> R {
+    let old = TIMEOUT_OVERRIDE.with(|t| t.replace(Some(ms)));
+    let r = f();
+    TIMEOUT_OVERRIDE.with(|t| t.set(old));
+    r
+}
 pub fn timeout_ms() -> u64 {
+    if let Some(t) = TIMEOUT_OVERRIDE.with(|t| t.get()) {
+        return t;
+    }
     ctx(|c| match c.tier {
         Tier::Quick => 20_000,
         Tier::Thorough => 120_000,
@@ -169,6 +180,20 @@ fn cross_disagrees(st: &solver::QueryStat) -> Option<String> {
     None
 }
 
+/// Re-check a solver model natively: every assertion must evaluate to true in exact F_q arithmetic.
+pub fn model_checks(asserts: &[F], m: &HashMap<String, String>) -> bool {
+    let mut mm = HashMap::new();
+    for (k, v) in m {
+        if let Some(i) = sx::var_index(k) {
+            if v.starts_with('-') {
+                return false;
+            }
+            mm.insert(i, fq::from_dec(v));
+        }
+    }
+    sx::eval_with(&mm, asserts).iter().all(|b| *b)
+}
+
 /// VALID: do `hyps` imply `goal` for every assignment?  (unsat of hyps ∧ ¬goal)
 pub fn valid(name: &str, hyps: &[F], goal: &F) -> Tri {
     if *goal == F::True {
@@ -179,7 +204,8 @@ pub fn valid(name: &str, hyps: &[F], goal: &F) -> Tri {
         return Tri::Yes;
     }
     let gv = solver::formula_vars(goal);
-    let mut asserts = solver::slice(hyps, &gv);
+    // a goal without variables (e.g. "this path is infeasible") is about the whole system: no slicing
+    let mut asserts = if gv.is_empty() { hyps.to_vec() } else { solver::slice(hyps, &gv) };
     asserts.push(goal.clone().not());
     let to = timeout_ms();
     let st = ctx(|c| c.solvers.check(name, &asserts, to, true));
@@ -194,6 +220,11 @@ pub fn valid(name: &str, hyps: &[F], goal: &F) -> Tri {
             Tri::Yes
         }
         Answer::Sat(m) => {
+            if !model_checks(&asserts, m) {
+                record(name, "VALID", "inconclusive", &st);
+                ctx(|c| c.inconclusive.push(format!("{}: the solver's counterexample does not check under native F_q evaluation (encoding or solver error)", name)));
+                return Tri::Unknown("model does not check natively".into());
+            }
             record(name, "VALID", "violated", &st);
             Tri::No(m.clone())
         }
@@ -202,8 +233,7 @@ pub fn valid(name: &str, hyps: &[F], goal: &F) -> Tri {
             let shadow_cex = hyps.iter().all(sx::eval) && !sx::eval(goal);
             if shadow_cex {
                 let m = shadow_model(&asserts);
-                let pinned = pin(&asserts, &m);
-                let st2 = ctx(|c| c.solvers.check(&format!("{} [pinned shadow counterexample]", name), &pinned, to, false));
+                let st2 = ctx(|c| c.solvers.check_pinned(&format!("{} [pinned shadow counterexample]", name), &asserts, to, false, Some(&HashMap::new())));
                 if st2.answer == Answer::Unsat || matches!(st2.answer, Answer::Unknown(_)) {
                     record(name, "VALID", "inconclusive", &st2);
                     ctx(|c| c.inconclusive.push(format!("{}: shadow counterexample not confirmed by solver", name)));
@@ -227,27 +257,50 @@ fn shadow_model(asserts: &[F]) -> HashMap<String, String> {
     sx::with(|a| vs.iter().map(|v| (a.vars[*v as usize].name.clone(), fq::to_dec(&a.vars[*v as usize].shadow))).collect())
 }
 
-/// add var = shadow-value constraints for every variable of the assertions
-fn pin(asserts: &[F], _m: &HashMap<String, String>) -> Vec<F> {
-    let mut vs = BTreeSet::new();
-    for f in asserts {
-        vs.extend(solver::formula_vars(f));
-    }
-    let mut out = asserts.to_vec();
-    for v in vs {
-        let (kind, node, sh) = sx::with(|a| (a.vars[v as usize].kind, a.vars[v as usize].node, a.vars[v as usize].shadow));
-        match kind {
-            sx::VarKind::Scalar => {
-                let k = sx::konst(sh);
-                out.push(sx::eq_formula(node, k));
-            }
-            sx::VarKind::Blob => {
-                let _ = node;
-                out.push(F::BlobConst(v, sh));
-            }
+/// Candidate-model query: is `hyps ∧ extra` satisfied by the shadow assignment with the given variables
+/// bumped by +1 (mod q)?  The candidate is first evaluated natively, then *confirmed by the solver* on the
+/// pinned system (every variable fixed), which takes milliseconds where a model search may not finish.
+/// Returns Some(model) if the candidate is a model.
+pub fn candidate_model(name: &str, kind: &'static str, hyps: &[F], extra: &F, bump: &[sx::Tid]) -> Option<HashMap<String, String>> {
+    let gv = solver::formula_vars(extra);
+    let mut asserts = if gv.is_empty() { hyps.to_vec() } else { solver::slice(hyps, &gv) };
+    asserts.push(extra.clone());
+    let mut overrides: HashMap<u32, fq::U256> = HashMap::new();
+    for t in bump {
+        if let sx::Node::Var(v) = sx::node_of(*t) {
+            let sh = sx::with(|a| a.vars[v as usize].shadow);
+            overrides.insert(v, fq::add(&fq::reduce(&sh), &fq::ONE));
         }
     }
-    out
+    if !sx::eval_with(&overrides, &asserts).iter().all(|b| *b) {
+        return None;
+    }
+    // ground system for the solver: every variable defined to its candidate value
+    let mut vs = BTreeSet::new();
+    for f in &asserts {
+        vs.extend(solver::formula_vars(f));
+    }
+    let mut model = HashMap::new();
+    let mut values: HashMap<u32, fq::U256> = HashMap::new();
+    for v in vs {
+        let (sh, vname) = sx::with(|a| (a.vars[v as usize].shadow, a.vars[v as usize].name.clone()));
+        let val = overrides.get(&v).copied().unwrap_or(sh);
+        model.insert(vname, fq::to_dec(&val));
+        values.insert(v, val);
+    }
+    let to = timeout_ms();
+    let st = ctx(|c| c.solvers.check_pinned(name, &asserts, to, false, Some(&values)));
+    match &st.answer {
+        Answer::Sat(_) => {
+            record(name, kind, "sat", &st);
+            Some(model)
+        }
+        _ => {
+            record(name, kind, "inconclusive", &st);
+            ctx(|c| c.inconclusive.push(format!("{}: native evaluation says the candidate is a model, the solver does not confirm it", name)));
+            None
+        }
+    }
 }
 
 /// WITNESS: is `hyps ∧ extra` satisfiable?  Tries the shadow assignment first (constructive witness,
@@ -260,9 +313,7 @@ pub fn witness(name: &str, hyps: &[F], extra: &F) -> Tri {
         let gv = solver::formula_vars(extra);
         let mut asserts = solver::slice(hyps, &gv);
         asserts.push(extra.clone());
-        let m = shadow_model(&asserts);
-        let pinned = pin(&asserts, &m);
-        let st = ctx(|c| c.solvers.check(name, &pinned, to, false));
+        let st = ctx(|c| c.solvers.check_pinned(name, &asserts, to, false, Some(&HashMap::new())));
         return match &st.answer {
             Answer::Sat(_) => {
                 record(name, "WITNESS", "held", &st);
@@ -301,8 +352,12 @@ pub fn witness(name: &str, hyps: &[F], extra: &F) -> Tri {
 /// SAT query on a sliced system with model (used for "is this atom unbound?" style questions where a
 /// model *is* the counterexample).  Returns Yes(sat)/No(unsat).
 pub fn satisfiable(name: &str, kind: &'static str, hyps: &[F], extra: &F) -> (Tri, Option<HashMap<String, String>>) {
+    satisfiable_opt(name, kind, hyps, extra, true)
+}
+/// `fatal = false`: an unknown answer is recorded but does not make the check inconclusive (documentation-only queries)
+pub fn satisfiable_opt(name: &str, kind: &'static str, hyps: &[F], extra: &F, fatal: bool) -> (Tri, Option<HashMap<String, String>>) {
     let gv = solver::formula_vars(extra);
-    let mut asserts = solver::slice(hyps, &gv);
+    let mut asserts = if gv.is_empty() { hyps.to_vec() } else { solver::slice(hyps, &gv) };
     asserts.push(extra.clone());
     let to = timeout_ms();
     let st = ctx(|c| c.solvers.check(name, &asserts, to, true));
@@ -313,6 +368,11 @@ pub fn satisfiable(name: &str, kind: &'static str, hyps: &[F], extra: &F) -> (Tr
     }
     match &st.answer {
         Answer::Sat(m) => {
+            if !model_checks(&asserts, m) {
+                record(name, kind, "inconclusive", &st);
+                ctx(|c| c.inconclusive.push(format!("{}: the solver's model does not check under native F_q evaluation", name)));
+                return (Tri::Unknown("model does not check natively".into()), None);
+            }
             record(name, kind, "sat", &st);
             (Tri::Yes, Some(m.clone()))
         }
@@ -321,8 +381,12 @@ pub fn satisfiable(name: &str, kind: &'static str, hyps: &[F], extra: &F) -> (Tr
             (Tri::No(HashMap::new()), None)
         }
         Answer::Unknown(s) => {
-            record(name, kind, "inconclusive", &st);
-            ctx(|c| c.inconclusive.push(format!("{}: {}", name, s)));
+            if fatal {
+                record(name, kind, "inconclusive", &st);
+                ctx(|c| c.inconclusive.push(format!("{}: {}", name, s)));
+            } else {
+                record(name, kind, "unknown(doc)", &st);
+            }
             (Tri::Unknown(s.clone()), None)
         }
     }
@@ -337,7 +401,7 @@ pub fn prove_under(name: &str, key: &str, hyps: &[F], goal: &F) -> bool {
     match valid(name, hyps, goal) {
         Tri::Yes => true,
         Tri::No(m) => {
-            finding(key, &format!("obligation '{}' has a counterexample", name), Some(m), json!({"kind": "none"}));
+            finding(key, &format!("obligation '{}' has a counterexample", name), Some(m), json!({"kind": "model", "obligation": name, "natively_rechecked": true}));
             false
         }
         Tri::Unknown(_) => false,
